@@ -563,6 +563,33 @@ func c12(c *Ctx) {
 	// "all store/load sequences on one path": the loader works on the path it was given - the string handed to
 	// NewFromFile is the string every later stat / read / write uses (an expansion of $VAR, ~ or a cleaned-up form
 	// makes two loaders built from one string disagree, or puts the session somewhere else)
+	// "relative, absolute and bare-filename paths": filepath.Split("session.json") gives the directory "" (which
+	// is no directory), filepath.Dir gives "." - nothing on the way from the configuration to the store takes a
+	// session path apart with Split
+	r.Rule("R12.B", "no call of path/filepath.Split (or path.Split) on a value derived from the session path in packages telegram, session and the root package: a bare file name must keep \".\" as its directory", 1)
+	{
+		n, calls := 0, 0
+		for f := range c.P.AllFunctions() {
+			pp := load.FuncPkgPath(f)
+			if len(f.Blocks) == 0 || !(pp == load.TgPkg || pp == load.SessPkg || pp == load.RootMod) {
+				continue
+			}
+			n++
+			for _, cs := range an.Calls(f) {
+				if cs.Name != "path/filepath.Split" && cs.Name != "path.Split" {
+					continue
+				}
+				d := an.NewDeps(c.inRepo).Of(cs.Common.Args[0])
+				if d.Has("SessionFile") || d.Has("AuthKeyFile") || d.Has("genericFileSessionLoader.path") || d.Has("session.NewFromFile") {
+					calls++
+					r.Violate("R12.B", sprintf("bare-name:%s#%d", an.ShortName(f), calls), c.pos(cs.Pos()), "the session path is taken apart with Split: for a bare file name the directory part is \"\", which no directory test accepts")
+				}
+			}
+		}
+		if calls == 0 {
+			r.Hold("R12.B", "bare-name:no-split", "", sprintf("%d functions, no Split of a session path", n))
+		}
+	}
 	r.Rule("R12.P", "NewFromFile stores its argument itself in the loader's path field (no expansion, cleaning or joining in between)", 1)
 	if f := c.fn("R12.P", load.SessPkg, "", "NewFromFile"); f != nil && len(f.Params) == 1 {
 		n := 0
